@@ -109,6 +109,7 @@ func (h *history) txnQuiet() {
 		return
 	}
 	rep := h.wd.execTxn(h.wd.P, &spec, false, nil)
+	h.logf("  (quiet) %s => %v", spec.String(), rep.Err)
 	if rep.Panic != "" {
 		panic("source history panicked: " + rep.Panic)
 	}
